@@ -60,11 +60,19 @@ Definition leaves_kind (ls : list pyval) : option sk :=
       end
   end.
 
+(* a list without any leaf ([] , [[], []], ...) has no element kind of its own: numpy types it float64, and a zero-size
+   array reads back as an empty (nested) list -- its canonical value is the empty array of its shape *)
 Definition cv_of_py (v : pyval) : option cval :=
   match v with
-  | PList _ => match py_shape v, leaves_kind (py_leaves v) with
-               | Some sh, Some k => Some (CArr k sh (map scalar_payload (py_leaves v)))
-               | _, _ => None
+  | PList _ => match py_shape v with
+               | Some sh => match py_leaves v with
+                            | [] => Some (CArr SFloat sh [])
+                            | ls => match leaves_kind ls with
+                                    | Some k => Some (CArr k sh (map scalar_payload ls))
+                                    | None => None
+                                    end
+                            end
+               | None => None
                end
   | _ => cv_scalar v
   end.
@@ -99,7 +107,8 @@ Qed.
 Lemma cv_of_list d k sh v : ok_dt d -> sk_of d = Some k -> list_val d sh v ->
   cv_of_py v = Some (CArr k sh (map scalar_payload (py_leaves v))).
 Proof. intros Hok Hk [Hpl [Hsh [Hlv Hne]]]. destruct v; try discriminate. unfold cv_of_py. rewrite Hsh.
-  rewrite (leaves_kind_ok d k _ Hok Hk Hne Hlv). reflexivity. Qed.
+  pose proof (leaves_kind_ok d k _ Hok Hk Hne Hlv) as Hlk.
+  destruct (py_leaves (PList l)) as [|x r] eqn:El; [contradiction|]. rewrite Hlk. reflexivity. Qed.
 
 Lemma map_flat_map {A B C} (f : B -> C) (g : A -> list B) l : map f (flat_map g l) = flat_map (fun x => map f (g x)) l.
 Proof. induction l as [|x l IH]; cbn; [reflexivity | rewrite map_app, IH; reflexivity]. Qed.
@@ -287,6 +296,62 @@ Proof.
     cbn [p_missing p]. pose proof (missing_arr_len col) as Hmm. destruct (missing_arr col); tauto.
 Qed.
 
+(* ---------- columns of lists without any leaf: every value is [] (or [[], []], ... of one shape) ---------- *)
+Lemma chunks_nil_nth {A} k : forall n i, nth i (chunks k n (@nil A)) [] = [].
+Proof. induction n as [|n IH]; intros [|i]; cbn [chunks nth]; try reflexivity.
+  - destruct k; reflexivity.
+  - replace (skipn k (@nil A)) with (@nil A) by (destruct k; reflexivity). apply IH. Qed.
+
+Lemma flat_map_nil {A B} (f : A -> list B) l : (forall x, In x l -> f x = []) -> flat_map f l = [].
+Proof. induction l as [|x l IH]; intro H; cbn; [reflexivity|]. rewrite (H x (or_introl eq_refl)), IH; [reflexivity|]. intros y Hy. apply H. right. exact Hy. Qed.
+
+Definition empty_val (sh : list nat) (v : pyval) : Prop := is_plist v = true /\ py_shape v = Some sh.
+
+Theorem empty_list_column col sh : sh <> [] -> size sh = 0 -> filled col <> [] ->
+  Forall (empty_val sh) (filled col) ->
+  exists p, dict_prop col = Ok p /\ good_col cv_of_py col p.
+Proof.
+  intros Hsh Hz Hne Hall. set (vals := filled col) in *. set (n := length col).
+  assert (Hn : length vals = n) by apply filled_length.
+  assert (Hnl : forall v, In v vals -> py_leaves v = []).
+  { intros v Hv. eapply Forall_forall in Hall; eauto. destruct Hall as [_ Hs]. apply length_zero_iff_nil. rewrite (leaves_length v sh Hs). exact Hz. }
+  set (a := mkarr DF64 (n :: sh) []).
+  assert (Has : asarray vals = AFixed a).
+  { unfold asarray.
+    assert (Hps : py_shape (PList vals) = Some (n :: sh)).
+    { cbn [py_shape]. destruct vals as [|v r] eqn:Ev; [contradiction|].
+      apply Forall_cons_iff in Hall. destruct Hall as [[_ Hsv] Hr]. cbn [map common_shape]. rewrite Hsv.
+      assert (Hfa : forallb (fun o : option (list nat) => match o with Some s' => natlist_eqb sh s' | None => false end) (map py_shape r) = true).
+      { apply forallb_forall. intros o Ho. apply in_map_iff in Ho. destruct Ho as [y [<- Hy]].
+        eapply Forall_forall in Hr; eauto. destruct Hr as [_ Hsy]. rewrite Hsy. apply natlist_eqb_eq. reflexivity. }
+      rewrite Hfa. cbn [length]. rewrite map_length. cbn [length] in Hn. rewrite Hn. reflexivity. }
+    rewrite Hps. cbn [py_leaves].
+    assert (Hfl : flat_map py_leaves vals = []) by (apply flat_map_nil; exact Hnl).
+    rewrite Hfl. reflexivity. }
+  exists (mkprop (PFixed a) (missing_arr col)). split; [unfold dict_prop; fold vals; rewrite Has; reflexivity|].
+  assert (Hrow : forall i, i < n -> elem_val (mkprop (PFixed a) (missing_arr col)) i = Ok (CArr SFloat sh [])).
+  { intros i Hi. unfold elem_val, row_cval. cbn [p_vals a a_shape a_dt a_flat sk_of]. apply Nat.ltb_lt in Hi. rewrite Hi.
+    rewrite chunks_nil_nth. destruct sh as [|s0 sr]; [contradiction|]. reflexivity. }
+  constructor.
+  - intros i Hi. eexists. apply Hrow. exact Hi.
+  - intros i Hi. rewrite (elem_missing_ext _ (PFixed (mkarr DBool [0%nat] []))). apply missing_arr_spec. exact Hi.
+  - intros i v Hv. assert (Hi : i < n) by (apply nth_error_Some; rewrite Hv; discriminate).
+    pose proof (filled_nth_some col i v Hv) as Hf. fold vals in Hf.
+    assert (Hin : In v vals) by (eapply nth_error_In; eauto).
+    pose proof Hall as Hall'. eapply Forall_forall in Hall'; eauto. destruct Hall' as [Hpl Hs].
+    exists (CArr SFloat sh []). split; [|apply Hrow; exact Hi].
+    destruct v; try discriminate. unfold cv_of_py. rewrite Hs, (Hnl _ Hin). reflexivity.
+  - split; cbn [p_vals p_missing].
+    + exists sh. reflexivity.
+    + pose proof (missing_arr_len col) as Hm. destruct (missing_arr col); cbn; tauto.
+  - reflexivity.
+  - intros name Hname. unfold encodable. cbn [fst snd]. unfold create_props_metadata, encode_prop, upcast_prop, upcast_arr, a.
+    cbn [p_vals p_missing a_dt dtype_eqb]. cbn [p_vals a_dt].
+    assert (Hv : valid_prop_dtype DF64 = true) by (vm_compute; reflexivity). rewrite Hv.
+    destruct (String.eqb name "") eqn:E; [apply String.eqb_eq in E; contradiction|]. cbn. eexists. eexists. split; reflexivity.
+  - split; [reflexivity|]. cbn [p_missing]. pose proof (missing_arr_len col) as Hm. destruct (missing_arr col); tauto.
+Qed.
+
 (* ---------- the value domain of a property column ---------- *)
 (* the values, together with the fill value used where an element lacks the property, are
    (1) Python scalars numpy types alike, or (2) nested lists of one shape with leaves numpy types alike, or
@@ -296,7 +361,9 @@ Definition val_col (col : list (option pyval)) : Prop :=
   ((exists d, col_dt col = Some d) \/
    (exists d sh, ok_dt d /\ sh <> [] /\ Forall (list_val d sh) (filled col)) \/
    (exists d r, ok_dt d /\ py_shape (PList (filled col)) = None /\
-                Forall (fun v => exists sh, length sh = r /\ list_val d sh v) (filled col))).
+                Forall (fun v => exists sh, length sh = r /\ list_val d sh v) (filled col)) \/
+   (* (4) nested lists of ONE shape without any leaf (every value is [], or [[], []], ...): a float64 array of size 0 *)
+   (exists sh, sh <> [] /\ size sh = 0 /\ Forall (empty_val sh) (filled col))).
 
 Lemma good_col_scalar_ext col p : good_col cv_scalar col p -> good_col cv_of_py col p.
 Proof. intros H. constructor; try apply H.
@@ -305,11 +372,13 @@ Proof. intros H. constructor; try apply H.
 
 Theorem val_col_good col : val_col col -> exists p, dict_prop col = Ok p /\ good_col cv_of_py col p.
 Proof.
-  intros [Hne [[d Hd]|[[d [sh [Hok [Hsh Hall]]]]|[d [r [Hok [Hrag Hall]]]]]]].
+  intros [Hne [[d Hd]|[[d [sh [Hok [Hsh Hall]]]]|[[d [r [Hok [Hrag Hall]]]]|[sh [Hsh [Hz Hall]]]]]]].
   - destruct (scalar_column col d Hd Hne) as [p [Hp [Hg _]]]. exists p. split; [exact Hp | apply good_col_scalar_ext; exact Hg].
   - apply (fixed_list_column col d sh Hok Hsh); [|exact Hall].
     intro E. apply Hne. apply length_zero_iff_nil. rewrite <- filled_length, E. reflexivity.
   - apply (ragged_list_column col d r Hok); [|exact Hrag | exact Hall].
+    intro E. apply Hne. apply length_zero_iff_nil. rewrite <- filled_length, E. reflexivity.
+  - apply (empty_list_column col sh Hsh Hz); [|exact Hall].
     intro E. apply Hne. apply length_zero_iff_nil. rewrite <- filled_length, E. reflexivity.
 Qed.
 
